@@ -223,6 +223,168 @@ def api_case(rng, n=None, big=True, report=False):
             drv.append(h + " ".join(dec_parts(l.a)))
     return spec, drv
 
+# ---------------- JSON trees (K.C14.json: Model/Json.v against models.rs / amount.rs serde) ----------------
+# tree = ("S", str) | ("O", [(key, tree), ...]) | ("X", python value written with json.dumps: number / null / bool)
+def S(x): return ("S", x)
+def O(*fs): return ("O", list(fs))
+def tree_text(t):
+    if t[0] == "S": return json.dumps(t[1])
+    if t[0] == "X": return json.dumps(t[1])
+    return "{" + ",".join(json.dumps(k) + ":" + tree_text(v) for k, v in t[1]) + "}"
+def tree_tokens(t):
+    if t[0] == "S": return ["S" + hexs(t[1])]
+    if t[0] == "X": return ["X"]
+    out = ["O%d" % len(t[1])]
+    for k, v in t[1]: out += ["K" + hexs(k)] + tree_tokens(v)
+    return out
+def tree_of_python(v):
+    """json.loads value -> tree (object key order kept; arrays do not occur inside a transaction)"""
+    if isinstance(v, str): return ("S", v)
+    if isinstance(v, dict): return ("O", [(k, tree_of_python(x)) for k, x in v.items()])
+    return ("X", v)
+def tree_of_model(v):
+    """driver json_write output (hex-coded strings) -> tree"""
+    unh = lambda h: binascii.unhexlify(h).decode("utf-8", "replace")
+    if isinstance(v, str): return ("S", unh(v))
+    if isinstance(v, dict): return ("O", [(unh(k), tree_of_model(x)) for k, x in v.items()])
+    return ("X", v)
+def tree_canon(t):
+    """order-insensitive form for comparing what the two writers wrote"""
+    if t[0] == "O": return ("O", sorted((k, tree_canon(v)) for k, v in t[1]))
+    return (t[0], json.dumps(t[1]))
+
+def spec_tree(t):
+    m = lambda v, c: O(("amount", S(v)), ("currency", S(c)))
+    h = [("date", S(t["date"])), ("ticker", S(t["tick"])), ("action", S(t["kind"]))]
+    k = t["kind"]
+    if k in ("BUY", "SELL"): h += [("amount", S(t["a"])), ("price", m(t["v"], t["vcur"])), ("fees", m(t["x"], t["xcur"]))]
+    elif k == "DIVIDEND": h += [("total_value", m(t["v"], t["vcur"])), ("tax_paid", m(t["x"], t["xcur"]))]
+    elif k == "ACCUMULATION": h += [("amount", S(t["a"])), ("total_value", m(t["v"], t["vcur"])), ("tax_paid", m(t["x"], t["xcur"]))]
+    elif k == "CAPRETURN": h += [("amount", S(t["a"])), ("total_value", m(t["v"], t["vcur"])), ("fees", m(t["x"], t["xcur"]))]
+    else: h += [("ratio", S(t["a"]))]
+    return ("O", h)
+
+DEC_ODD = ["0", "0.00", "-1", "+2", "1e3", "", "abc", "1.", ".5", "007.50", "1_000", " 1", "1.0000000000000000000000000000",
+           "0.00000000000000000000000000001", "79228162514264337593543950335", "79228162514264337593543950336", "1.5.2"]
+def mutate_tree(rng, tree, codes):
+    """one reader-facing variation of a written transaction: the lenient forms the reader accepts, the forms it must
+    refuse, and forms the model leaves to the libraries.  Returns (tree, label)."""
+    if tree[0] != "O": return tree, "none"
+    fs = list(tree[1]); keys = [k for k, _ in fs]
+    act = dict(fs).get("action"); act = act[1] if act and act[0] == "S" else None
+    def setk(k, v): return ("O", [(a, (v if a == k else b)) for a, b in fs])
+    def getk(k): return dict(fs).get(k)
+    money_keys = [k for k, v in fs if k in ("price", "fees", "total_value", "tax_paid") and v[0] == "O" and {"amount", "currency"} <= set(dict(v[1]))]
+    dec_keys = [k for k in keys if k in ("amount", "ratio")]
+    choice = rng.choice(["plain", "drop_opt", "drop_req", "case", "cap_return", "bad_action", "extra", "extra_money", "gbp_key", "cur",
+                         "dec_odd", "money_odd", "number", "date", "ticker", "dup", "not_object", "no_action", "action_type", "reorder", "none"])
+    if choice == "plain" and money_keys:
+        k = rng.choice(money_keys); v = getk(k)
+        if v[0] == "O" and dict(v[1]).get("amount", ("X", 0))[0] == "S": return setk(k, S(dict(v[1])["amount"][1])), "plain"
+    if choice == "drop_opt":
+        ks = [k for k in keys if k in ("fees", "tax_paid")]
+        if ks: return ("O", [(a, b) for a, b in fs if a != ks[0]]), "drop_opt"
+    if choice == "drop_req":
+        req = [k for k in keys if k not in ("fees", "tax_paid")]
+        if not req: return tree, "none"
+        k = rng.choice(req)
+        return ("O", [(a, b) for a, b in fs if a != k]), "drop_req"
+    if choice == "case" and act is not None:
+        a = act; return setk("action", S(rcase(rng, a))), "case"
+    if choice == "cap_return" and act == "CAPRETURN":
+        return setk("action", S(rcase(rng, "CAP_RETURN"))), "cap_return"
+    if choice == "bad_action":
+        return setk("action", S(rng.choice(["HOLD", "", "BUY ", "SPLITS", "CAP-RETURN", "buy_", "DIV"]))), "bad_action"
+    if choice == "extra":
+        i = rng.randint(0, len(fs)); g = list(fs); g.insert(i, (rng.choice(["note", "gbp", "Amount", "currency", "id"]), rng.choice([S("x"), ("X", 1), ("X", None), O(("a", S("b")))])))
+        return ("O", g), "extra"
+    if choice == "extra_money" and money_keys:
+        k = rng.choice(money_keys); v = getk(k); g = list(v[1]); g.insert(rng.randint(0, len(g)), (rng.choice(["note", "Currency", "rate"]), rng.choice([S("x"), ("X", 2.5), ("X", None)])))
+        return setk(k, ("O", g)), "extra_money"
+    if choice == "gbp_key" and money_keys:
+        k = rng.choice(money_keys); v = getk(k); g = list(v[1]); g.insert(rng.randint(0, len(g)), ("gbp", S("1")))
+        return setk(k, ("O", g)), "gbp_key"
+    if choice == "cur" and money_keys:
+        k = rng.choice(money_keys); v = getk(k); d = dict(v[1])
+        c = rng.choice(["usd", "Gbp", "ZZZ", "", "US", "USDX", "EU R", rng.choice(codes), rng.choice(codes).lower(), None, 7])
+        if c is None: return setk(k, O(("amount", d["amount"]))), "cur_missing"
+        if c == 7: return setk(k, O(("amount", d["amount"]), ("currency", ("X", 7)))), "cur_number"
+        return setk(k, O(("amount", d["amount"]), ("currency", S(c)))), "cur"
+    if choice == "dec_odd" and dec_keys:
+        return setk(rng.choice(dec_keys), S(rng.choice(DEC_ODD))), "dec_odd"
+    if choice == "money_odd" and money_keys:
+        k = rng.choice(money_keys); v = getk(k); d = dict(v[1]); z = S(rng.choice(DEC_ODD))
+        return (setk(k, z) if rng.random() < 0.5 else setk(k, O(("amount", z), ("currency", d["currency"])))), "money_odd"
+    if choice == "number":
+        k = rng.choice(dec_keys + money_keys) if dec_keys + money_keys else None
+        if k: return setk(k, ("X", rng.choice([1, 2.5, 0, -3, None, True]))), "number"
+    if choice == "date":
+        return setk("date", rng.choice([S("2024-02-30"), S("2023-13-01"), S("2023-00-10"), S("2024-2-3"), S("20240203"), S(""), S("2024-02-29T00:00:00"),
+                                        S("2024-02-29 "), S("0000-01-01"), S("9999-12-31"), S("1900-02-29"), ("X", 20240229), ("X", None)])), "date"
+    if choice == "ticker":
+        return setk("ticker", rng.choice([S("vod"), S("Brk.b"), S("a b"), S(""), S("café"), S("straße"), S("X" * 40), ("X", 5), ("X", None)])), "ticker"
+    if choice == "dup" and keys:
+        k = rng.choice(keys); g = list(fs); g.insert(rng.randint(0, len(g)), (k, getk(k)))
+        return ("O", g), "dup"
+    if choice == "not_object":
+        return rng.choice([S("BUY"), ("X", 3), ("X", None), ("X", True)]), "not_object"
+    if choice == "no_action":
+        return ("O", [(a, b) for a, b in fs if a != "action"]), "no_action"
+    if choice == "action_type":
+        return setk("action", rng.choice([("X", 1), ("X", None), O(("a", S("BUY")))])), "action_type"
+    if choice == "reorder":
+        g = list(fs); rng.shuffle(g); return ("O", g), "reorder"
+    return tree, "none"
+
+def k_c14_json(ctx, specs, model_w, code_r):
+    """writer: the tree Model/Json.v's to_json builds against the tree serde_json writes; reader: read_txns against
+    serde_json::from_str::<Vec<Transaction>> on the written trees and on variations of them."""
+    rng = ctx.rng; codes = currencies()
+    cur = "CUR " + " ".join(codes)
+    for cid, spec in specs.items():
+        w = model_w.get("w" + cid); rr = code_r[cid]
+        if w is None or not rr.get("ok") or rr.get("json_text") is None: continue
+        mt = [tree_canon(tree_of_model(t)) for t in w["trees"]]
+        ct = [tree_canon(tree_of_python(t)) for t in json.loads(rr["json_text"])]
+        ctx.count("json_write", mt == ct)
+        if mt != ct:
+            ctx.disagreements_checked += 1
+            ctx.violation("correspondence K.C14.json broken: the JSON the code writes differs from Model/Json.v to_json: code %s, model %s" % (rr["json_text"][:300], [tree_text(tree_of_model(t)) for t in w["trees"]][:2]),
+                          {"txns": spec, "code_json": rr["json_text"], "model_trees": w["trees"], "correspondence": "K.C14.json", "case_id": cid}, found_input=False)
+    # reader
+    mc = []; rc = []; meta = {}
+    ids = list(specs)
+    n = ctx.n(3000, 60000)
+    for i in range(n):
+        spec = specs[ids[i % len(ids)]]
+        trees = [spec_tree(t) for t in spec]; label = "written"
+        if i >= len(ids) // 4 and trees:
+            j = rng.randrange(len(trees)); trees[j], label = mutate_tree(rng, trees[j], codes)
+            if rng.random() < 0.2:
+                j = rng.randrange(len(trees)); trees[j], l2 = mutate_tree(rng, trees[j], codes); label += "+" + l2
+        cid = "j%d" % i
+        text = "[" + ",".join(tree_text(t) for t in trees) + "]"
+        toks = ["L%d" % len(trees)]
+        for t in trees: toks += tree_tokens(t)
+        mc.append((cid, [cur, "RUN json_read " + " ".join(toks)])); rc.append({"id": cid, "op": "json_read", "json_text": text})
+        meta[cid] = (label, text)
+    m = run.run_model(mc); r = run.run_harness(rc)
+    for cid, (label, text) in meta.items():
+        ctx.evaluations += 1
+        mm, rr = m[cid], r[cid]
+        ctx.count("json_read_model", mm["res"]); ctx.count("json_variation", label.split("+")[0])
+        if mm["res"] == "unmodelled": continue
+        ctx.nontrivial.add(text)
+        kd = None
+        if rr.get("stage") == "panic": kd = "the reader panics: %s" % rr.get("error", "")[:120]
+        elif mm["res"] == "ok" and not rr.get("ok"): kd = "model reads it, code refuses: %s" % rr.get("error", "")[:200]
+        elif mm["res"] == "reject" and rr.get("ok"): kd = "model refuses it, code reads %s" % rr["txns"][:2]
+        elif mm["res"] == "ok" and mm["txns"] != rr["txns"]: kd = "read differently: model %s, code %s" % (mm["txns"][:3], rr["txns"][:3])
+        if kd:
+            ctx.disagreements_checked += 1
+            ctx.violation("correspondence K.C14.json broken (%s): %s on %s" % (label, kd, text[:300]),
+                          {"json_text": text, "variation": label, "code": rr, "model": mm, "correspondence": "K.C14.json", "case_id": cid}, found_input=False)
+
 def k_c14(ctx):
     rng = ctx.rng
     n = ctx.n(2500, 60000)
@@ -233,6 +395,7 @@ def k_c14(ctx):
         spec, drv = api_case(rng, report=rep)
         cid = "a%d" % i; specs[cid] = spec
         mc.append((cid, [cur] + drv + ["RUN dsl_print"]))
+        mc.append(("w" + cid, drv + ["RUN json_write"]))
         rc.append({"id": cid, "op": "roundtrip", "txns": spec, "reports": rep})
     m = run.run_model(mc); r = run.run_harness(rc)
     for cid, spec in specs.items():
@@ -269,3 +432,4 @@ def k_c14(ctx):
         if kd:
             ctx.disagreements_checked += 1
             ctx.violation("correspondence K.C14.print broken: %s" % kd, {"txns": spec, "code": rr, "model": mm, "correspondence": "K.C14.print", "case_id": cid}, found_input=False)
+    k_c14_json(ctx, specs, m, r)
